@@ -34,6 +34,7 @@ pub fn single_ops(thorough: bool) -> Vec<Op> {
     SkipLast(2),
     SkipWhile(Pred::Lt(2)),
     SkipWhile(Pred::Even),
+    SkipWhile(Pred::Ge(2)),
     StartWith(vec![]),
     StartWith(vec![8]),
     StartWith(vec![8, 9]),
@@ -103,7 +104,6 @@ pub fn single_ops(thorough: bool) -> Vec<Op> {
       WindowFlat(4),
       Filter(Pred::Ge(2)),
       TakeWhile(Pred::Ge(2)),
-      SkipWhile(Pred::Ge(2)),
       All(Pred::Even),
       Contains(1),
       Retry(3),
